@@ -26,7 +26,11 @@ def run(v):
     rnd = random.Random(SEED)
     per_def = 50 if v.tier == "quick" else 180
     by = {}
-    def c02_finding(c):   # lines that hit the recorded tokeniser findings F11/F12 are C02's business
+    from checks import c02
+    dmap = {d["id"]: d for d in fam}
+    def c02_finding(c):   # lines that hit the recorded tokeniser findings F2/F11/F12 are C02's business
+        if "rule" in c02.sig(dict(c, def_full=dmap[c["def"]])):
+            return True
         for it in c["line"]:
             gv = it.get("v", "") if it["t"] == "glued" or (it["t"] == "cluster" and it.get("hasv")) else None
             if gv is not None and ("%FF" in gv or (it["t"] == "cluster" and "=" in gv)):
